@@ -292,6 +292,9 @@ def list_method(engine, st, fr, o, kind, name, args, kwargs, node):
     at = st.get("$at", oid)
     ety = elem_type(o.ty)
     i = z3.Int("i!lm")
+    if name in ("append", "extend", "insert", "pop", "popleft", "remove", "clear"):
+        st.trace.append(Event("mutate", recv=oid, meth=name, args=[engine.to_val(st, a) for a in args[:1]] if name in ("append", "remove") else [],
+                              site=engine.site(fr, node), held=list(st.held), depth=fr.depth))
     if name == "append":
         t = engine.to_val(st, args[0])
         if ety is not None:
@@ -315,6 +318,9 @@ def list_method(engine, st, fr, o, kind, name, args, kwargs, node):
             yield cur, None
             return
         raise Unsupported("list.extend(%r)" % (src,))
+    elif name == "appendleft":
+        for r in list_method(engine, st, fr, o, kind, "insert", [0, args[0]], kwargs, node):
+            yield r
     elif name == "insert":
         k = _index(engine, st, args[0])
         t = engine.to_val(st, args[1])
@@ -336,6 +342,7 @@ def list_method(engine, st, fr, o, kind, name, args, kwargs, node):
             st1.put("$at", oid, z3.Lambda([i], z3.If(i < k, z3.Select(at, i), z3.Select(at, i + 1))))
             st1.put("$len", oid, n - 1)
             st1.ghost["last_removed_index"] = k
+            st1.trace.append(Event("popped", recv=oid, meth=name, args=[z3.Select(at, k), k], site=engine.site(fr, node)))
             yield st1, v
     elif name == "remove":
         t = engine.to_val(st, args[0])
@@ -350,6 +357,7 @@ def list_method(engine, st, fr, o, kind, name, args, kwargs, node):
             st_f.put("$at", oid, z3.Lambda([i], z3.If(i < k, z3.Select(at, i), z3.Select(at, i + 1))))
             st_f.put("$len", oid, n - 1)
             st_f.ghost["last_removed_index"] = k
+            st_f.trace.append(Event("popped", recv=oid, meth=name, args=[t, k], site=engine.site(fr, node)))
             st_f.decisions.append(("remove: element present", True))
             yield st_f, None
         if engine.feasible(st, [none]):
